@@ -838,10 +838,12 @@ class H2Stream:
         self.state_machine.process_input(input_)
         return
 
-    def send_headers(self, headers, encoder, end_stream=False):
+    def send_headers(self, headers, encoder, end_stream=False,
+                     priority_present=False):
         """
         Returns a list of HEADERS/CONTINUATION frames to emit as either headers
-        or trailers.
+        or trailers. If the caller is going to add priority information to
+        the HEADERS frame, room is left for it.
         """
         self.config.logger.debug("Send headers %s on %r", headers, self)
 
@@ -872,7 +874,8 @@ class H2Stream:
         hf = HeadersFrame(self.stream_id)
         hdr_validation_flags = self._build_hdr_validation_flags(events)
         frames = self._build_headers_frames(
-            headers, encoder, hf, hdr_validation_flags
+            headers, encoder, hf, hdr_validation_flags,
+            first_frame_overhead=(5 if priority_present else 0)
         )
 
         if end_stream:
@@ -909,8 +912,10 @@ class H2Stream:
         ppf = PushPromiseFrame(self.stream_id)
         ppf.promised_stream_id = related_stream_id
         hdr_validation_flags = self._build_hdr_validation_flags(events)
+        # The PUSH_PROMISE frame also carries the four-byte promised stream ID.
         frames = self._build_headers_frames(
-            headers, encoder, ppf, hdr_validation_flags
+            headers, encoder, ppf, hdr_validation_flags,
+            first_frame_overhead=4
         )
 
         return frames
@@ -1247,9 +1252,13 @@ class H2Stream:
                               headers,
                               encoder,
                               first_frame,
-                              hdr_validation_flags):
+                              hdr_validation_flags,
+                              first_frame_overhead=0):
         """
-        Helper method to build headers or push promise frames.
+        Helper method to build headers or push promise frames. The first frame
+        may carry ``first_frame_overhead`` bytes besides its header block
+        fragment (priority information, the promised stream ID), which count
+        against the maximum frame size as well.
         """
         # We need to lowercase the header names, and to ensure that secure
         # header fields are kept out of compression contexts.
@@ -1269,20 +1278,18 @@ class H2Stream:
 
         encoded_headers = encoder.encode(headers)
 
-        # Slice into blocks of max_outbound_frame_size. Be careful with this:
-        # it only works right because we never send padded frames or priority
-        # information on the frames. Revisit this if we do.
-        header_blocks = [
+        # Slice into blocks of max_outbound_frame_size, the first one being
+        # smaller by what else the first frame has to carry. Be careful with
+        # this: it only works right because we never send padded frames.
+        first_block_size = self.max_outbound_frame_size - first_frame_overhead
+        header_blocks = [encoded_headers[:first_block_size]] + [
             encoded_headers[i:i+self.max_outbound_frame_size]
             for i in range(
-                0, len(encoded_headers), self.max_outbound_frame_size
+                first_block_size,
+                len(encoded_headers),
+                self.max_outbound_frame_size
             )
         ]
-
-        # An empty header list (legal for trailers) encodes to nothing: that
-        # is still one frame, with an empty header block fragment.
-        if not header_blocks:
-            header_blocks = [b'']
 
         frames = []
         first_frame.data = header_blocks[0]
